@@ -254,6 +254,11 @@ def genall_c09(info):
     gen_C09(info)
 
 
+def gen_C15(info):
+    """no generated obligations of its own; the NC half lives in a proof module that is built for this check"""
+    info['extra_targets'] += ['HabuVerif.Proofs.C15NC']
+
+
 def gen_C10(info):
     """read-set patterns of every regenerated line x regenerated catalogue -> Gen/C10_<year>_<k>.lean"""
     if _gen_tool(info, 'gen_c10.py', 'c10'):
